@@ -105,12 +105,20 @@ public:
     bool sit = (e->sit_model == TRUE);
     if ((!sit && e->pitzer_model != TRUE) || v.empty() || e->s_list.empty()) { o << "PZ " << tag << " none\nPE " << tag << "\n"; return; }
     size_t k = 0;
-    auto next = [&]() { double d = (k < 2 || v.size() < 3) ? v[k % v.size()] : v[2 + (k - 2) % (v.size() - 2)]; k++; return d; };
+    auto next = [&]() { double d = (k < 3 || v.size() < 4) ? v[k % v.size()] : v[3 + (k - 3) % (v.size() - 3)]; k++; return d; };
     std::vector<class pitz_param*>& pp = sit ? e->sit_params : e->pitz_params;
     e->mu_x = next();
     e->tk_x = next();
     e->tc_x = e->tk_x - 273.15;
-    for (size_t j = 0; j < e->s_list.size(); j++) e->spec[e->s_list[j]]->lm = next();
+    { double pr = next(); e->patm_x = (pr >= 1.0) ? pr : 1.0; }       // v[2]: pressure (atm), the branch patm_x > 1 of pitzer()
+    std::vector<double> zsave;
+    std::vector<int> tsave;
+    for (size_t j = 0; j < e->s_list.size(); j++) {
+      class species* sp = e->spec[e->s_list[j]];
+      sp->lm = next();
+      zsave.push_back(sp->z);
+      if (sit) { double t = next(); if (t > -0.5 && t < -0.3) sp->z = 0.0; }   // SIT: some species made neutral (neutral-neutral epsilon)
+    }
     for (size_t j = 0; j < e->param_list.size(); j++) {
       class pitz_param* p = pp[e->param_list[j]];
       if (p->type == TYPE_ALPHAS) continue;
@@ -120,11 +128,17 @@ public:
       p->a[3] = next() * 1e-2;
       p->a[4] = next() * 1e-5;
       p->a[5] = sit ? p->a[5] : next() * 1e4;
+      tsave.push_back((int)p->type);
+      if (sit) { double t = next(); if (t > 0.25) p->type = TYPE_SIT_EPSILON_MU; else p->type = TYPE_SIT_EPSILON; }   // exercise epsilon1
     }
     e->OTEMP = -100.0;
     e->OPRESS = -100.0;
     if (sit) { e->sit(); } else { e->pitzer(); }
     pz(e, tag, o);
+    // restore what was altered beyond numbers (charges, parameter types, pressure)
+    for (size_t j = 0; j < e->s_list.size(); j++) e->spec[e->s_list[j]]->z = zsave[j];
+    { size_t q = 0; for (size_t j = 0; j < e->param_list.size(); j++) { class pitz_param* p = pp[e->param_list[j]]; if (p->type == TYPE_ALPHAS) continue; if (q < tsave.size()) p->type = (pitz_param_type)tsave[q++]; } }
+    e->patm_x = 1.0;
   }
 
   static double callback(double x1, double x2, const char* str, void* cookie) {
